@@ -42,6 +42,9 @@ def _xv_value(kind, enc, version=0):
     num = _xv_num(enc, version)
     if kind == "num":
         return num
+    if kind == "none":
+        # a function that is run for its side effects
+        return None
     if kind == "int":
         return int(num)
     if kind == "bool":
@@ -166,6 +169,8 @@ def _xv_call(name, kind, version, kw):
         exc = getattr(builtins, "_xv_fail_exc", None)
         if exc == "StopIteration":
             raise StopIteration("xv-fail: " + enc)
+        if exc == "KeyboardInterrupt":
+            raise KeyboardInterrupt("xv-fail: " + enc)
         raise RuntimeError("xv-fail: " + enc)
     unp = getattr(builtins, "_xv_unpick", None)
     if unp and enc in unp:
